@@ -2,6 +2,13 @@
 open Egutil
 open Rawdata
 
+(* the harness target has a 64-bit usize: run the usize64 instance of the model *)
+let load = Rawdata.load usize64
+let store = Rawdata.store usize64
+let iter_list = Rawdata.iter_list usize64
+let iter_next = Rawdata.iter_next usize64
+let iter_nth = Rawdata.iter_nth usize64
+
 (* decimal parser without the 63-bit limit of OCaml ints (indices up to usize::MAX) *)
 let zbig_in (s : string) : BinNums.coq_Z =
   let ten = z_of_int 10 in
@@ -26,8 +33,41 @@ let init () =
     | bpp :: alt :: idx :: v :: bytes ->
         let t = ty bpp and o = ord alt in
         let buf = zs_in bytes in
-        let (buf', ok) = store t o (raw_new t (zbig_in v)) buf (zbig_in idx) in
-        b_out ok ^ " " ^ bytes_out buf' ^ " " ^ opt_out z_out (load t o buf' (zbig_in idx))
+        let r = raw_new t (zbig_in v) in
+        let (buf', ok) = store t o r buf (zbig_in idx) in
+        z_out r ^ " " ^ b_out ok ^ " " ^ bytes_out buf' ^ " " ^ opt_out z_out (load t o buf' (zbig_in idx))
+    | _ -> "BAD-ARGS");
+  (* large buffers given by a rule: byte k = (a * k + b + (k lsr 8) + (k lsr 16)) mod 256 *)
+  let big_buf len a b = Stdlib.List.init len (fun k -> z_of_int ((a * k + b + (k lsr 8) + (k lsr 16)) mod 256)) in
+  register "rd_big" (function
+    | [bpp; alt; len; a; b; idx; v] ->
+        let t = ty bpp and o = ord alt in
+        let len = int_of_string len in
+        let buf = big_buf len (int_of_string a) (int_of_string b) in
+        let i = zbig_in idx in
+        let one = z_of_int 1 in
+        (* idx.wrapping_sub(1) / idx.saturating_add(1) of the harness; idx >= 1 and idx < usize::MAX in the generated cases *)
+        let nb bf = opt_out z_out (load t o bf (BinInt.Z.sub i one)) ^ "/" ^ opt_out z_out (load t o bf (BinInt.Z.add i one)) in
+        let l0 = opt_out z_out (load t o buf i) in
+        let n0 = nb buf in
+        let (buf', ok) = store t o (raw_new t (zbig_in v)) buf i in
+        let l1 = opt_out z_out (load t o buf' i) in
+        let n1 = nb buf' in
+        let changed = ref [] in
+        Stdlib.List.iteri (fun k (x, y) -> if x <> y then changed := (string_of_int k ^ ":" ^ z_out y) :: !changed)
+          (Stdlib.List.combine buf buf');
+        let ch = if !changed = [] then "-" else Stdlib.String.concat "," (Stdlib.List.rev !changed) in
+        Stdlib.String.concat " " [l0; n0; b_out ok; l1; n1; ch]
+    | _ -> "BAD-ARGS");
+  register "rd_big_nth" (function
+    | [bpp; alt; len; a; b; k1; k2] ->
+        let t = ty bpp and o = ord alt in
+        let buf = big_buf (int_of_string len) (int_of_string a) (int_of_string b) in
+        let s0 = iter_new buf in
+        let (x1, s1) = iter_nth t o s0 (zbig_in k1) in
+        let (x2, s2) = iter_nth t o s1 (zbig_in k2) in
+        hint_out (size_hint t s0) ^ " " ^ opt_out z_out x1 ^ "@" ^ hint_out (size_hint t s1) ^ " "
+        ^ opt_out z_out x2 ^ "@" ^ hint_out (size_hint t s2)
     | _ -> "BAD-ARGS");
   register "rd_load" (function
     | bpp :: alt :: idx :: bytes -> opt_out z_out (load (ty bpp) (ord alt) (zs_in bytes) (zbig_in idx))
